@@ -257,7 +257,11 @@ fn update_best_com(
     resolution: f64,
     directed: bool,
 ) {
-    for (nbr_com, wt) in weights2com {
+    // visit the candidate communities in ascending order so that exact ties between gains
+    // are broken the same way on every call, whatever the iteration order of the hash map
+    let mut candidates: Vec<(usize, f64)> = weights2com.into_iter().collect();
+    candidates.sort_by_key(|(nbr_com, _)| *nbr_com);
+    for (nbr_com, wt) in candidates {
         let gain = match directed {
             true => {
                 wt - resolution
